@@ -13,7 +13,7 @@ EXPLANATION = ('Post-condition on grammar._get_normalizer_issues(module) in the 
 
 def run(ctx):
     q = ctx.tier == 'quick'
-    own = ['c20']
+    own = ['c20', 'c20t']
     ctx.encode(*_pipe.FUNCS, 'parso.grammar.Grammar._get_normalizer_issues', 'parso.python.pep8.PEP8Normalizer (visit_leaf, _visit_part, '
                '_visit_node, _reset_newlines, _analyse_non_prefix, add_issue)', 'parso.python.pep8 IndentationNode/BracketNode/ImplicitNode/BackslashNode',
                'parso.normalizer.Normalizer.add_issue', 'parso.normalizer.Issue', 'parso.python.prefix.split_prefix/PrefixPart')
